@@ -60,8 +60,37 @@ def cases(draw, tier="quick"):
             c["warmup_us"] = None     # the windowed State needs its first row replayed (it cannot parse an empty queue)
         nsteps = len(g) - 1 - a
         cut = min(cut, max(0, nsteps - 1))
+    # custom events may be loaded from a table (add_custom_events), possibly with completely empty rows
+    if c["pings"] and draw(st.sampled_from([False, True])):
+        c["pings_via_frame"] = True
+        c["ping_nan_rows"] = draw(st.lists(st.integers(0, len(c["pings"]) - 1), max_size=2, unique=True))
+        c["ping_nan_shift_us"] = draw(st.sampled_from([0, 1, -1]))
     c["cut"] = cut
     c["perturb"] = {"mode": mode, "factors": factors, "drops": drops, "added": added}
+    return c
+
+
+@st.composite
+def ruin_cases(draw, tier="quick"):
+    """An episode that ENDS at the cut: a leveraged account is ruined by the market events of step j while data is left
+    and quotes sit inside the latency window after t (the terminal outputs must not depend on them)."""
+    from props import c09
+    r = draw(c09.cases(tier))
+    r["phase"] = "nonlatent"
+    r["as_contracts"] = False
+    gap = r["gap"]
+    r["latency_us"] = draw(st.sampled_from([US, gap // 2, gap - 1]))
+    r["tail"] = max(r["tail"], 1)
+    c = c09.to_env_case(r)
+    j = r["ruin_step"]
+    n = len(c["contracts"])
+    c["extras"] = [[j, draw(st.sampled_from([1, r["latency_us"] // 2 + 1, r["latency_us"]])), draw(st.integers(0, n - 1)),
+                    draw(st.floats(0.5, 2.0)), 0.0] for _ in range(draw(st.integers(1, 3)))]
+    c["pings"] = [[j, draw(st.sampled_from([1, r["latency_us"]])), draw(st.floats(-5, 5))]]
+    c["cut"] = j
+    c["perturb"] = {"mode": "P", "factors": draw(st.lists(st.floats(0.5, 2.0), min_size=1, max_size=4)),
+                    "drops": draw(st.lists(st.booleans(), min_size=1, max_size=3)), "added": []}
+    c["ruin_at_cut"] = True
     return c
 
 
@@ -169,13 +198,19 @@ def run(case):
         res.tag("markov")
     if case.get("warmup_us"):
         res.tag("warm-up")
+    if case.get("pings_via_frame"):
+        res.tag("custom-events-from-a-table")
+        if case.get("ping_nan_rows"):
+            res.tag("table-with-empty-rows")
+    if case.get("ruin_at_cut"):
+        res.tag("episode-ends-by-ruin-at-the-cut")
     return res
 
 
 from vlib import c02xy
 
 PARTS = [
-    Part("events", strategy=lambda tier: cases(tier), run=run, quick=3000, thorough=150000),
+    Part("events", strategy=lambda tier: st.one_of(cases(tier), cases(tier), cases(tier), ruin_cases(tier)), run=run, quick=3000, thorough=150000),
     Part("xy", strategy=lambda tier: c02xy.cases(tier), run=c02xy.run_xy, quick=640, thorough=9600),
 ]
 RULE = RULE.replace("tabular: see part xy. ", "xy (tabular API): " + c02xy.RULE + " ")
